@@ -1,6 +1,7 @@
 // Part 3 of gvgoslp: extended mode of the straight-line translator (slp.go) for
 //   - the hash-to-curve maps (ecc/<curve>/hash_to_g1.go + ecc/<curve>/hash_to_curve/g1.go) -> Gen/H2C/<Pkg>.lean   (C13)
 //   - the pieces of the algebraic hashes (Poseidon2 layers, MiMC encrypt)                    -> Gen/Hash/<Pkg>.lean  (C14)
+//   - (slpfft.go, built on this mode) FFT kernels and small complete transforms of the fft packages -> Gen/FFT/<Pkg>.lean   (C10)
 //
 // Additional Go subset and its semantics (trusted, like slp.go):
 //   - values known at translation time: int variables / constants / `len` of fixed-length data, bool parameters, big.Int locals
@@ -76,8 +77,14 @@ func (sp *spec) suffix(f *fn) string {
 		case q.isBool:
 			parts = append(parts, fmt.Sprint(sp.bools[i]))
 		case q.isInt:
-			if n, ok := sp.ints[i]; ok {
+			if n, ok := sp.ints[i]; ok && n < 0 {
+				parts = append(parts, fmt.Sprintf("m%d", -n)) // a Lean identifier cannot contain '-'
+			} else if ok {
 				parts = append(parts, fmt.Sprint(n))
+			}
+		case q.jag:
+			if t := sp.arrs[i]; t != nil {
+				parts = append(parts, strings.ToLower(t.name))
 			}
 		case q.slice:
 			if t := sp.arrs[i]; t != nil {
@@ -211,6 +218,9 @@ func (x *tr) evalInt(s *state, e ast.Expr) (int64, bool) {
 		if n, ok := s.sints[e.Name]; ok {
 			return n, true
 		}
+		if x.p.cfg.ext == "fft" && e.Name == "nil" {
+			return 0, true // only ever compared with a channel parameter, which is statically nil (= 0)
+		}
 		_, isCell := s.cells[e.Name]
 		_, isPtr := s.ptrs[e.Name]
 		if n, ok := x.p.iconsts[e.Name]; ok && !isCell && !isPtr {
@@ -241,6 +251,13 @@ func (x *tr) evalInt(s *state, e ast.Expr) (int64, bool) {
 		case token.REM:
 			if b != 0 {
 				return a % b, true
+			}
+		case token.SHL, token.SHR:
+			if x.p.cfg.ext == "fft" && b >= 0 && b < 62 && a >= 0 && a < 1<<31 {
+				if e.Op == token.SHL {
+					return a << uint(b), true
+				}
+				return a >> uint(b), true
 			}
 		}
 	case *ast.SelectorExpr:
@@ -380,12 +397,26 @@ func (x *tr) extLoc(s *state, e ast.Expr) (loc, bool) {
 		if e.Low == nil && e.High == nil && e.Max == nil {
 			return x.evalLoc(s, e.X), true
 		}
+		if x.p.cfg.ext == "fft" {
+			if v := x.evalView(s, e); v.whole(x, s) {
+				return v.l, true
+			}
+			reject("sub-slice %s used as a location (only as a call argument or under Vector(..))", exprStr(e))
+		}
 		reject("sub-slice %s", exprStr(e))
+	}
+	if x.p.cfg.ext == "fft" {
+		return x.fftLoc(s, e)
 	}
 	return loc{}, false
 }
 
-func (x *tr) sliceLoc(s *state, e ast.Expr) loc { return x.evalLoc(s, e) }
+func (x *tr) sliceLoc(s *state, e ast.Expr) loc {
+	if x.p.cfg.ext == "fft" {
+		return x.viewArg(s, e)
+	}
+	return x.evalLoc(s, e)
+}
 
 // ---------------------------------------------------------------- flag expressions
 
@@ -523,6 +554,11 @@ func (x *tr) extVal(s *state, e ast.Expr) *val {
 // ---------------------------------------------------------------- calls
 
 func (x *tr) extCall(s *state, c *ast.CallExpr) (*loc, *val, bool) {
+	if x.p.cfg.ext == "fft" {
+		if x.fftCall(s, c) {
+			return nil, nil, true
+		}
+	}
 	switch f := c.Fun.(type) {
 	case *ast.Ident:
 		_, shadow := s.cells[f.Name]
@@ -665,7 +701,7 @@ func (x *tr) extBaseCall(s *state, dst loc, op string, c *ast.CallExpr) (baseRes
 
 // ---------------------------------------------------------------- statements
 
-var anonRootRe = regexp.MustCompile(`^(new|lit)[0-9]+$`)
+var anonRootRe = regexp.MustCompile(`^(new|lit|blk)[0-9]+$`)
 
 func scopeNames(s *state) map[string]bool {
 	m := map[string]bool{}
@@ -682,6 +718,9 @@ func scopeNames(s *state) map[string]bool {
 		m[k] = true
 	}
 	for k := range s.bigs {
+		m[k] = true
+	}
+	for k := range s.views {
 		m[k] = true
 	}
 	return m
@@ -712,6 +751,11 @@ func pruneScope(s *state, keep map[string]bool) {
 	for k := range s.bigs {
 		if drop(k) {
 			delete(s.bigs, k)
+		}
+	}
+	for k := range s.views {
+		if drop(k) {
+			delete(s.views, k)
 		}
 	}
 }
@@ -855,6 +899,9 @@ func (x *tr) loopOuter(re *ast.ForStmt, outer map[string]bool) {
 }
 
 func (x *tr) extAssign(s *state, st *ast.AssignStmt) bool {
+	if x.p.cfg.ext == "fft" && x.fftAssign(s, st) {
+		return true
+	}
 	switch st.Tok {
 	case token.DEFINE:
 		if len(st.Lhs) > 1 && len(st.Rhs) == 1 {
